@@ -632,7 +632,21 @@ func (f *skFunc) stmt(s ast.Stmt) []skNode {
 			}
 		}
 		f.bind(v.Lhs, v.Rhs)
-		return f.pure(out, v.Lhs)
+		out = f.pure(out, v.Lhs)
+		// x := y copies what is known about the error variable y
+		if len(v.Lhs) == len(v.Rhs) {
+			for i := range v.Lhs {
+				l, lok := v.Lhs[i].(*ast.Ident)
+				r, rok := v.Rhs[i].(*ast.Ident)
+				if lok && rok && f.errVars[r.Name] {
+					f.errVars[l.Name] = true
+					if f.nonNil[r.Name] {
+						f.nonNil[l.Name] = true
+					}
+				}
+			}
+		}
+		return out
 	case *ast.DeclStmt:
 		gd, ok := v.Decl.(*ast.GenDecl)
 		if !ok {
